@@ -723,6 +723,16 @@ pub fn synthetic_project(seed: u64) -> Project {
         extra_keys.push(["Calc: Calc", "CalcUser: CalcUser", "Limits: Limits"][rng.below(3)].into());
     }
     if rng.chance(1, 8) {
+        // type names that are also members of Object.prototype (ordinary, valid type names)
+        let a = names[rng.below(n_types)].clone();
+        extra_decls.push(format!("export type constructor = {{ b: number; back?: {} }};\nexport type toString = {{ a: string; self?: toString }};\nexport type valueOf = {{ c: boolean }};\nexport type hasOwnProperty = valueOf | null;", a));
+        extra_decls.push("export type UsesProtoNames = { x: constructor; y: toString; z: valueOf[]; w?: hasOwnProperty };".into());
+        extra_keys.push("UsesProtoNames: UsesProtoNames".into());
+        if rng.chance(1, 2) {
+            extra_keys.push("PN: toString".into());
+        }
+    }
+    if rng.chance(1, 8) {
         // declarations that refer to themselves in ways the type checker rejects (or that only a
         // qualified import type can reach): the compiler has to answer with a diagnostic
         for _ in 0..rng.range(1, 2) {
